@@ -808,11 +808,11 @@ func (p *InlineParser) parseEndBracket(state *inlineState, start int) (end int) 
 				kind: TextKind,
 				span: Span{
 					Start: start,
-					End:   start + 3,
+					End:   start + 1,
 				},
 			})
 			state.stack = deleteDelimiterStack(state.stack, openDelimIndex, openDelimIndex+1)
-			return start + 3
+			return start + 1
 		}
 
 		linkNode := state.wrap(kind, state.stack[openDelimIndex].node, nil)
